@@ -34,5 +34,26 @@ theorem invertZ_ok : InvertOK (invertZ (n := n)) := by
   rw [DMat.toMatrix_ofMatrix, Matrix.mul_smul, Matrix.mul_adjugate, smul_smul]
   rcases hd with hd | hd <;> rw [hd] <;> simp
 
+theorem invertG_ok {K : Type} [Field K] [DecidableEq K] [Inhabited K] :
+    InvertOK (invertG (n := n) (K := K)) := by
+  intro A X h
+  unfold invertG at h
+  split at h
+  · cases h
+  · simp only at h
+    split_ifs at h with hd
+    cases h
+    exact hd
+
+theorem invertZG_ok : InvertOK (invertZG (n := n)) := by
+  intro A X h
+  unfold invertZG at h
+  split at h
+  · cases h
+  · simp only at h
+    split_ifs at h with h1 hd
+    cases h
+    exact hd
+
 end Rep
 end GT
